@@ -8,6 +8,7 @@
   allocation, no read of uninitialised bytes below bpos) is the `∃ r, … = .ok r` in every statement.
 -/
 import JsonC.Lemmas.Printbuf
+import JsonC.Lemmas.TranslatedPb
 
 namespace JsonC.Printbuf
 open JsonC Generated
